@@ -43,7 +43,8 @@ def LIST(t):
 LINT = LIST(INT)
 SPECROW = 'SpecRow'
 FILE = 'File'        # a binary file object being read: the bytes not yet consumed
-MSG = 'TMsg'         # a message in a track as far as tracks.py looks at it: identity, is-end_of_track, time
+MSG = 'TMsg'         # a message in a track as far as tracks.py / write_track look at it
+OPT_INT = 'OptInt'    # None or an int (running_status_byte)
 
 
 class Rec:
@@ -67,6 +68,8 @@ def lty(t):
         return 'SpecRow'
     if t == FILE:
         return '(List Int)'
+    if t == OPT_INT:
+        return '(Option Int)'
     return t
 
 
@@ -120,6 +123,8 @@ class FnTranslator:
                 return '"%s"' % v.replace('\\', '\\\\').replace('"', '\\"'), STR
             if v is None:
                 return '()', NONE
+            if isinstance(v, bytes):
+                return '([%s] : List Int)' % ', '.join(str(b) for b in v), LINT
             raise Untranslatable(f'constant {v!r}')
         if isinstance(e, ast.Name):
             if e.id in self.env:
@@ -138,6 +143,10 @@ class FnTranslator:
                     return f'self.{e.attr}', self.unit.fields[e.attr]
                 if t == MSG and e.attr == 'time':
                     return f'{base}.time', INT
+                if t == MSG and e.attr in ('is_realtime', 'is_meta'):
+                    return f'{base}.{ {"is_realtime": "isRealtime", "is_meta": "isMeta"}[e.attr] }', BOOL
+                if t == MSG and e.attr == 'data':
+                    return f'{base}.data', LINT
             raise Untranslatable('attribute ' + ast.dump(e)[:80])
         if isinstance(e, ast.Subscript):
             if isinstance(e.value, ast.Name) and e.value.id in self.env and isinstance(self.env[e.value.id][1], Rec):
@@ -218,9 +227,10 @@ class FnTranslator:
         if isinstance(e, ast.Compare) and len(e.ops) == 1 and isinstance(e.left, ast.Attribute) and e.left.attr == 'type' \
                 and isinstance(e.left.value, ast.Name) and self.env.get(e.left.value.id, (None, None))[1] == MSG:
             r = e.comparators[0]
-            if isinstance(r, ast.Constant) and r.value == 'end_of_track' and isinstance(e.ops[0], (ast.Eq, ast.NotEq)):
+            if isinstance(r, ast.Constant) and r.value in ('end_of_track', 'sysex') and isinstance(e.ops[0], (ast.Eq, ast.NotEq)):
                 b = self.env[e.left.value.id][0]
-                return (f'{b}.eot' if isinstance(e.ops[0], ast.Eq) else f'(!{b}.eot)'), BOOL
+                fld = 'eot' if r.value == 'end_of_track' else 'isSysex'
+                return (f'{b}.{fld}' if isinstance(e.ops[0], ast.Eq) else f'(!{b}.{fld})'), BOOL
             raise Untranslatable('comparison of a message type')
         if isinstance(e, ast.Compare):
             items = [e.left] + list(e.comparators)
@@ -241,6 +251,10 @@ class FnTranslator:
                     prev, pt = r, rt
                     continue
                 r, rt = self.expr(rhs)
+                if pt == INT and rt == OPT_INT and opn in ('Eq', 'NotEq'):
+                    out.append(f'(some {prev} {"==" if opn == "Eq" else "!="} {r})')
+                    prev, pt = r, rt
+                    continue
                 if pt != rt and not (isinstance(pt, tuple) and isinstance(rt, tuple)):
                     raise Untranslatable(f'compare {pt} with {rt}')
                 sym = {'Eq': '==', 'NotEq': '!=', 'Lt': '<', 'LtE': '≤', 'Gt': '>', 'GtE': '≥'}.get(opn)
@@ -306,6 +320,12 @@ class FnTranslator:
                 if isinstance(t, tuple) and t[0] == 'List':
                     return f'(len {a})', INT
                 raise Untranslatable('len of ' + str(t))
+            if n == 'isinstance' and len(e.args) == 2 and isinstance(e.args[0], ast.Attribute) and e.args[0].attr == 'time' \
+                    and isinstance(e.args[0].value, ast.Name) and self.env.get(e.args[0].value.id, (None, None))[1] == MSG \
+                    and isinstance(e.args[1], ast.Name) and e.args[1].id == 'Integral':
+                return f'{self.env[e.args[0].value.id][0]}.timeIsInt', BOOL
+            if n == 'bytearray' and not e.args and not e.keywords:
+                return '[]', LINT
             if n == 'isinstance' and len(e.args) == 2:
                 a, t = self.expr(e.args[0])
                 k = e.args[1]
@@ -325,7 +345,7 @@ class FnTranslator:
                 tv, tt = self.expr(e.keywords[0].value)
                 if tt != INT:
                     raise Untranslatable('time of the new end_of_track')
-                return f'(TMsg.mk 0 true {tv})', MSG
+                return f'({{ id := 0, eot := true, time := {tv}, isMeta := true, bytes := .ok [255, 47, 0] }} : TMsg)', MSG
             if n == 'MidiTrack' and len(e.args) == 1 and not e.keywords:
                 a, t = self.expr(e.args[0])
                 if t == LIST(MSG):
@@ -349,6 +369,15 @@ class FnTranslator:
                 a, t = self.expr(f.value)
                 if t == INT:
                     return f'(bitLength {a})', INT
+            if f.attr == 'bytes' and not e.args and not e.keywords:
+                a, t = self.expr(f.value)
+                if t == MSG:
+                    return f'(← {a}.bytes)', LINT
+            if f.attr == 'pack' and isinstance(f.value, ast.Name) and f.value.id == 'struct' and len(e.args) == 2 \
+                    and isinstance(e.args[0], ast.Constant) and e.args[0].value == '>L':
+                a, t = self.expr(e.args[1])
+                if t == INT:
+                    return f'(← packU32 {a})', LINT
             if f.attr == 'copy' and not e.args:
                 a, t = self.expr(f.value)
                 kws = {k.arg: k.value for k in e.keywords}
@@ -386,13 +415,18 @@ class FnTranslator:
     def assign_target(self, tgt, val, vt, ind, out):
         if isinstance(tgt, ast.Name):
             n = tgt.id
+            hint = getattr(self.unit, 'local_types', {}).get(n)
+            if hint is not None and vt == LIST(INT) and val == '[]':
+                vt = hint          # an empty list literal: its element type is declared in the unit configuration
+            if hint == OPT_INT:
+                if vt == NONE:
+                    val, vt = 'none', OPT_INT
+                elif vt == INT:
+                    val, vt = f'(some {val})', OPT_INT
             if n in self.env and self.env[n][1] != vt and not (val == '[]' and isinstance(self.env[n][1], tuple)):
                 et = self.env[n][1]
                 if not (isinstance(et, tuple) and isinstance(vt, tuple) and et[0] == vt[0] == 'List'):
                     raise Untranslatable(f'variable {n} changes type {et} -> {vt}')
-            hint = getattr(self.unit, 'local_types', {}).get(n)
-            if hint is not None and vt == LIST(INT) and val == '[]':
-                vt = hint          # an empty list literal: its element type is declared in the unit configuration
             if n in self.muts:
                 out.append(f'{ind}{n} := {val}')
             else:
@@ -566,6 +600,12 @@ class FnTranslator:
                 if u.ret in (None, NONE):
                     return [f'{ind}self ← {u.lean_name} self {args}']
                 raise Untranslatable('method with a value used as statement')
+            # outfile.write(data): the bytes are appended to what has been written
+            if f.attr == 'write' and isinstance(f.value, ast.Name) and self.env.get(f.value.id, (None, None))[1] == FILE and len(e.args) == 1:
+                v, vt = self.expr(e.args[0])
+                if vt != LINT:
+                    raise Untranslatable('write of ' + str(vt))
+                return [f'{ind}{f.value.id} := {f.value.id} ++ {v}']
             # xs.append(v) / xs.extend(ys) / xs.reverse() on a local list or a list field
             if f.attr in ('append', 'extend', 'reverse'):
                 tgt = f.value
@@ -593,6 +633,13 @@ class FnTranslator:
             u = self.tr.unit_by_pyname(self.unit.file, e.func.id)
             if u is not None and u.ret in (None, NONE):
                 args = [self.expr(a) for a in e.args]
+                files = [(i, p) for i, (p, t) in enumerate(u.params) if t == FILE]
+                if files:
+                    # the callee writes to / reads from the file it is handed: its new state comes back
+                    if len(files) != 1 or not isinstance(e.args[files[0][0]], ast.Name):
+                        raise Untranslatable('file argument form')
+                    fv = e.args[files[0][0]].id
+                    return [f'{ind}{fv} := (← {u.lean_name} {self.flat_args(u, args, e.args)}).2']
                 return [f'{ind}{u.lean_name} {self.flat_args(u, args, e.args)}']
         raise Untranslatable('expression statement ' + ast.dump(e)[:80])
 
@@ -628,9 +675,14 @@ class FnTranslator:
             if not (isinstance(st, tuple) and st[0] == 'List'):
                 raise Untranslatable('for over ' + str(st))
             et = st[1]
+            if '←' in src:
+                out0 = [f'{ind}let it__ ← {src[3:-1] if src.startswith("(← ") else src}']
+                src = 'it__'
+            else:
+                out0 = []
         saved = self.env.get(v)
         self.env[v] = (v, et)
-        out = [f'{ind}for {v} in {src} do']
+        out = (out0 if not (isinstance(it, ast.Call) and isinstance(it.func, ast.Name) and it.func.id == 'range') else []) + [f'{ind}for {v} in {src} do']
         out.extend(self.block(s.body, ind + '  '))
         if saved is None:
             del self.env[v]
@@ -949,6 +1001,11 @@ def units():
     U.append(Unit(TR, 'fix_end_of_track', [('messages', LIST(MSG))], LIST(MSG)))
     U.append(Unit(TR, 'merge_tracks', [('tracks', LIST(LIST(MSG)))], LIST(MSG)))
     U[-1].local_types = {'messages': LIST(MSG)}
+
+    MF = 'mido/midifiles/midifiles.py'
+    U.append(Unit(MF, 'write_chunk', [('outfile', FILE), ('name', LINT), ('data', LINT)], NONE))
+    U.append(Unit(MF, 'write_track', [('outfile', FILE), ('track', LIST(MSG))], NONE))
+    U[-1].local_types = {'running_status_byte': OPT_INT}
 
     def meta(cls, attrs, dec_extra=None, checks=True):
         rec_in = Rec({a: INT for a in attrs})
